@@ -147,14 +147,37 @@ Section Vars.
   Definition bind_spec (names : list N) (values : list V) (name : N) : option V :=
     option_map snd (find (fun p => fst p =? name) (rev (combine names values))).
 
-  (* funcInput: the next value of the iterator, or the error "break" when exhausted *)
-  Inductive input_result := InputValue (x : V) | InputBreak.
-  Definition input_call (it : list V) : input_result * list V :=
-    match it with x :: r => (InputValue x, r) | [] => (InputBreak, []) end.
-  Fixpoint input_calls (n : nat) (it : list V) : list input_result :=
+  (* funcInput: v, ok := c.inputIter.Next(); !ok -> the error "break"; otherwise v is returned as it is, and
+     an iterator item that is an error value is thereby an error of `input` (catchable).  Either way the
+     iterator has advanced by exactly one item; nothing else is remembered between calls. *)
+  Inductive input_item := ItVal (x : V) | ItErr (x : V).
+  Inductive input_result := InputValue (x : V) | InputError (x : V) | InputBreak.
+  Definition result_of_item (i : input_item) : input_result :=
+    match i with ItVal x => InputValue x | ItErr x => InputError x end.
+  Definition input_call (it : list input_item) : input_result * list input_item :=
+    match it with i :: r => (result_of_item i, r) | [] => (InputBreak, []) end.
+  Fixpoint input_calls (n : nat) (it : list input_item) : list input_result :=
     match n with
     | O => []
     | S k => let '(r, it') := input_call it in r :: input_calls k it'
+    end.
+
+  (* opcall of a native ([3]any): compileCallInternal compiles the argument closures for i := len(args)-1 … 0
+     (each pushes its value: the LAST argument is evaluated first, i.e. in the outermost loop), then loads the
+     input; opcall pops the input and then args[i] = pop() for i = 0 … argcnt-1 *)
+  Definition push_in_code_order (args : list V) (stack : list V) : list V :=
+    fold_left (fun st a => a :: st) (rev args) stack.
+  Definition opcall_pop (argcnt : nat) (stack : list V) : option (V * list V * list V) :=
+    match stack with
+    | x :: st => if Nat.leb argcnt (length st) then Some (x, firstn argcnt st, skipn argcnt st) else None
+    | [] => None
+    end.
+  (* the argument vectors a native sees when its argument expressions are generators: the last
+     argument's generator is the outermost loop, the first one the innermost *)
+  Fixpoint enum_args (gens : list (list V)) : list (list V) :=
+    match gens with
+    | [] => [[]]
+    | g :: r => flat_map (fun tl => map (fun a => a :: tl) g) (enum_args r)
     end.
 End Vars.
 
